@@ -129,3 +129,14 @@ func (n *Network) CertificateResultsTx(nd *Node, chainId, nestedHeight, rootHeig
 	qc.Signature = n.Aggregate(vs, qc.SignBytes(), signers)
 	return n.Tx(pk, &fsm.MessageCertificateResults{Qc: qc}, 0, createdHeight, "")
 }
+
+// ChangeParamTx builds a governance changeParameter transaction (uint64 value) valid for heights
+// [start, end], signed by (and naming as signer) the given key.
+func (n *Network) ChangeParamTx(signer crypto.PrivateKeyI, space, key string, value, start, end, fee, createdHeight uint64) []byte {
+	a, err := lib.NewAny(&lib.UInt64Wrapper{Value: value})
+	if err != nil {
+		panic(err)
+	}
+	return n.Tx(signer, &fsm.MessageChangeParameter{ParameterSpace: space, ParameterKey: key, ParameterValue: a,
+		StartHeight: start, EndHeight: end, Signer: addr(signer)}, fee, createdHeight, "")
+}
